@@ -35,8 +35,13 @@
 
    Call ids are allotted by the model (s_next) in the order of the ClientSend actions, so an id names one message.
 
-   Left out (see tools/props/c10.py ASSUMPTIONS): ping/pong and the inactivity check; the bound of the sink queue
-   (message_buffer_capacity: `sink.send` only ever waits, it never drops); batches (one task, one reply: same shape
+   The sink queue is bounded (message_buffer_capacity = s_cap, copied into c_cap): `sink.send(json).await` parks while
+   the queue is full.  A task in state TRet is exactly that: its handler has returned, the reply is not in the queue
+   yet (it is waiting for room when the queue is full) and the task STILL owns its Arc<RpcService>, i.e. its
+   pending-call token -- CEnqueue is enabled only when there is room (or the queue has been closed: the send fails,
+   the reply is lost, the task ends).
+
+   Left out (see tools/props/c10.py ASSUMPTIONS): ping/pong and the inactivity check; batches (one task, one reply: same shape
    as a call); subscription notifications (an open subscription owns a MethodSink clone and NO token: c_subs is a
    counter nothing depends on); HTTP/2; the WS handshake (a WS connection starts in its reader loop; the hyper task's
    mpsc token is released by CHyperDone at any time); partial reads of a request; tokio scheduling: CWriterStop is
@@ -46,7 +51,7 @@ From Coq Require Import List NArith Bool Arith.
 Import ListNotations.
 
 Inductive kind := KHttp | KWs.
-Inductive tstate := TSpawned | TExec | TRet.           (* spawned/read, handler running, handler returned *)
+Inductive tstate := TSpawned | TExec | TRet.   (* spawned/read, handler running, handler returned: reply waiting for the queue *)
 Inductive phase := PReading | PGraceful | PClosing | PDone.
 Inductive wstate := WRun | WFin.
 Inductive astate := ARun | ADrain | ADone.
@@ -62,11 +67,12 @@ Record conn := mkConn {
   c_wstop : bool;                (* conn_tx.send(()) done *)
   c_closed : bool;               (* client has disconnected *)
   c_tok : bool;                  (* this connection's hyper task still owns its drop_on_completion sender *)
-  c_subs : nat                   (* open subscriptions *)
+  c_subs : nat;                  (* open subscriptions *)
+  c_cap : nat                    (* capacity of the sink queue (message_buffer_capacity) *)
 }.
 
-Definition new_conn (k : kind) : conn :=
-  mkConn k [] [] [] [] PReading (match k with KWs => WRun | KHttp => WFin end) false false true 0.
+Definition new_conn (k : kind) (cap : nat) : conn :=
+  mkConn k [] [] [] [] PReading (match k with KWs => WRun | KHttp => WFin end) false false true 0 cap.
 
 Definition tstate_eqb (a b : tstate) : bool :=
   match a, b with TSpawned, TSpawned | TExec, TExec | TRet, TRet => true | _, _ => false end.
@@ -88,16 +94,16 @@ Fixpoint remove_first (t : N * tstate) (l : list (N * tstate)) : option (list (N
 
 Definition is_nil {A} (l : list A) : bool := match l with [] => true | _ => false end.
 
-Definition set_inbox x v := mkConn (c_kind x) v (c_tasks x) (c_queue x) (c_wire x) (c_phase x) (c_writer x) (c_wstop x) (c_closed x) (c_tok x) (c_subs x).
-Definition set_tasks x v := mkConn (c_kind x) (c_inbox x) v (c_queue x) (c_wire x) (c_phase x) (c_writer x) (c_wstop x) (c_closed x) (c_tok x) (c_subs x).
-Definition set_queue x v := mkConn (c_kind x) (c_inbox x) (c_tasks x) v (c_wire x) (c_phase x) (c_writer x) (c_wstop x) (c_closed x) (c_tok x) (c_subs x).
-Definition set_wire x v := mkConn (c_kind x) (c_inbox x) (c_tasks x) (c_queue x) v (c_phase x) (c_writer x) (c_wstop x) (c_closed x) (c_tok x) (c_subs x).
-Definition set_phase x v := mkConn (c_kind x) (c_inbox x) (c_tasks x) (c_queue x) (c_wire x) v (c_writer x) (c_wstop x) (c_closed x) (c_tok x) (c_subs x).
-Definition set_writer x v := mkConn (c_kind x) (c_inbox x) (c_tasks x) (c_queue x) (c_wire x) (c_phase x) v (c_wstop x) (c_closed x) (c_tok x) (c_subs x).
-Definition set_wstop x v := mkConn (c_kind x) (c_inbox x) (c_tasks x) (c_queue x) (c_wire x) (c_phase x) (c_writer x) v (c_closed x) (c_tok x) (c_subs x).
-Definition set_closed x v := mkConn (c_kind x) (c_inbox x) (c_tasks x) (c_queue x) (c_wire x) (c_phase x) (c_writer x) (c_wstop x) v (c_tok x) (c_subs x).
-Definition set_tok x v := mkConn (c_kind x) (c_inbox x) (c_tasks x) (c_queue x) (c_wire x) (c_phase x) (c_writer x) (c_wstop x) (c_closed x) v (c_subs x).
-Definition set_subs x v := mkConn (c_kind x) (c_inbox x) (c_tasks x) (c_queue x) (c_wire x) (c_phase x) (c_writer x) (c_wstop x) (c_closed x) (c_tok x) v.
+Definition set_inbox x v := mkConn (c_kind x) v (c_tasks x) (c_queue x) (c_wire x) (c_phase x) (c_writer x) (c_wstop x) (c_closed x) (c_tok x) (c_subs x) (c_cap x).
+Definition set_tasks x v := mkConn (c_kind x) (c_inbox x) v (c_queue x) (c_wire x) (c_phase x) (c_writer x) (c_wstop x) (c_closed x) (c_tok x) (c_subs x) (c_cap x).
+Definition set_queue x v := mkConn (c_kind x) (c_inbox x) (c_tasks x) v (c_wire x) (c_phase x) (c_writer x) (c_wstop x) (c_closed x) (c_tok x) (c_subs x) (c_cap x).
+Definition set_wire x v := mkConn (c_kind x) (c_inbox x) (c_tasks x) (c_queue x) v (c_phase x) (c_writer x) (c_wstop x) (c_closed x) (c_tok x) (c_subs x) (c_cap x).
+Definition set_phase x v := mkConn (c_kind x) (c_inbox x) (c_tasks x) (c_queue x) (c_wire x) v (c_writer x) (c_wstop x) (c_closed x) (c_tok x) (c_subs x) (c_cap x).
+Definition set_writer x v := mkConn (c_kind x) (c_inbox x) (c_tasks x) (c_queue x) (c_wire x) (c_phase x) v (c_wstop x) (c_closed x) (c_tok x) (c_subs x) (c_cap x).
+Definition set_wstop x v := mkConn (c_kind x) (c_inbox x) (c_tasks x) (c_queue x) (c_wire x) (c_phase x) (c_writer x) v (c_closed x) (c_tok x) (c_subs x) (c_cap x).
+Definition set_closed x v := mkConn (c_kind x) (c_inbox x) (c_tasks x) (c_queue x) (c_wire x) (c_phase x) (c_writer x) (c_wstop x) v (c_tok x) (c_subs x) (c_cap x).
+Definition set_tok x v := mkConn (c_kind x) (c_inbox x) (c_tasks x) (c_queue x) (c_wire x) (c_phase x) (c_writer x) (c_wstop x) (c_closed x) v (c_subs x) (c_cap x).
+Definition set_subs x v := mkConn (c_kind x) (c_inbox x) (c_tasks x) (c_queue x) (c_wire x) (c_phase x) (c_writer x) (c_wstop x) (c_closed x) (c_tok x) v (c_cap x).
 
 (* a reply reaches the transport only while the client is there *)
 Definition put_wire (x : conn) (k : N) : conn := if c_closed x then x else set_wire x (c_wire x ++ [k]).
@@ -109,7 +115,7 @@ Inductive cact :=
 | CRead                (* WS reader loop takes a message and spawns its task / graceful: discards it; HTTP: hyper reads the next request *)
 | CStart (k : N)       (* handler of call k starts *)
 | CFinish (k : N)      (* handler of call k returns *)
-| CEnqueue (k : N)     (* WS: sink.send(reply) -- the task ends and drops its pending-call token *)
+| CEnqueue (k : N)     (* WS: sink.send(reply) completes (needs room in the queue) -- the task ends and drops its pending-call token *)
 | CWrite               (* WS send task writes the head of the queue; HTTP: hyper writes the response *)
 | CSeeStop             (* the connection's select observes the stop signal *)
 | CGracefulEnd         (* WS graceful_shutdown's select! completes -> conn_tx.send(()) *)
@@ -143,10 +149,12 @@ Definition cstep (sig : bool) (x : conn) (a : cact) : option conn :=
     match c_kind x with
     | KWs =>
       match remove_first (k, TRet) (c_tasks x) with
-      | Some t => Some (match c_writer x with
-                        | WRun => set_queue (set_tasks x t) (c_queue x ++ [k])
-                        | WFin => set_tasks x t            (* channel closed: the reply is lost *)
-                        end)
+      | Some t => match c_writer x with
+                  | WRun => if Nat.ltb (length (c_queue x)) (c_cap x)
+                            then Some (set_queue (set_tasks x t) (c_queue x ++ [k]))
+                            else None                        (* queue full: sink.send stays parked, token held *)
+                  | WFin => Some (set_tasks x t)             (* channel closed: the send fails, the reply is lost *)
+                  end
       | None => None
       end
     | KHttp => None
@@ -227,10 +235,12 @@ Record state := mkState {
   s_stop : bool;          (* a value has been sent on the watch channel *)
   s_handles : nat;        (* live ServerHandle clones (they share one watch::Sender) *)
   s_resolved : bool;      (* `stopped()` has resolved *)
-  s_next : N              (* next message id *)
+  s_next : N;             (* next message id *)
+  s_cap : nat             (* ServerConfig::message_buffer_capacity *)
 }.
 
-Definition init : state := mkState [] ARun false 1 false 0%N.
+Definition init_cap (cap : nat) : state := mkState [] ARun false 1 false 0%N cap.
+Definition init : state := init_cap 1024.   (* the default message_buffer_capacity *)
 
 (* what StopHandle::shutdown() waits for *)
 Definition sig (s : state) : bool := s_stop s || Nat.eqb (s_handles s) 0.
@@ -261,18 +271,18 @@ Inductive action :=
 
 Inductive outcome := OOk | OIgnored | ORefused | OStopOk | OStopAlready | ONoHandle.
 
-Definition set_conns s v := mkState v (s_accept s) (s_stop s) (s_handles s) (s_resolved s) (s_next s).
-Definition set_accept s v := mkState (s_conns s) v (s_stop s) (s_handles s) (s_resolved s) (s_next s).
-Definition set_stop s v := mkState (s_conns s) (s_accept s) v (s_handles s) (s_resolved s) (s_next s).
-Definition set_handles s v := mkState (s_conns s) (s_accept s) (s_stop s) v (s_resolved s) (s_next s).
-Definition set_resolved s v := mkState (s_conns s) (s_accept s) (s_stop s) (s_handles s) v (s_next s).
-Definition set_next s v := mkState (s_conns s) (s_accept s) (s_stop s) (s_handles s) (s_resolved s) v.
+Definition set_conns s v := mkState v (s_accept s) (s_stop s) (s_handles s) (s_resolved s) (s_next s) (s_cap s).
+Definition set_accept s v := mkState (s_conns s) v (s_stop s) (s_handles s) (s_resolved s) (s_next s) (s_cap s).
+Definition set_stop s v := mkState (s_conns s) (s_accept s) v (s_handles s) (s_resolved s) (s_next s) (s_cap s).
+Definition set_handles s v := mkState (s_conns s) (s_accept s) (s_stop s) v (s_resolved s) (s_next s) (s_cap s).
+Definition set_resolved s v := mkState (s_conns s) (s_accept s) (s_stop s) (s_handles s) v (s_next s) (s_cap s).
+Definition set_next s v := mkState (s_conns s) (s_accept s) (s_stop s) (s_handles s) (s_resolved s) v (s_cap s).
 
 Definition step (s : state) (a : action) : state * outcome :=
   match a with
   | Connect k =>
     match s_accept s with
-    | ARun => (set_conns s (s_conns s ++ [new_conn k]), OOk)     (* accept is polled before the stop future *)
+    | ARun => (set_conns s (s_conns s ++ [new_conn k (s_cap s)]), OOk)     (* accept is polled before the stop future *)
     | _ => (s, ORefused)
     end
   | ClientSend c =>
